@@ -119,7 +119,12 @@ def parse_duration(s):
 def parse_date(s):
     # return seconds-since-epoch for the UTC midnight that starts the given
     # day
-    return int(iso_utc_time_to_seconds(s + "T00:00:00"))
+    m = re.fullmatch(r"(\d{4})-(\d{2})-(\d{2})", s)
+    if not m:
+        raise ValueError(s, "not a YYYY-MM-DD date")
+    year, month, day = (int(g) for g in m.groups())
+    # datetime.date() rejects days that do not exist (2009-02-30)
+    return calendar.timegm(datetime.date(year, month, day).timetuple())
 
 def format_delta(time_1, time_2):
     if time_1 is None:
